@@ -55,9 +55,30 @@ func init() {
 					w.opAdd(w.users[1], sym, w.frac(nat), w.frac(ext))
 				}
 			}
-			// fees and (half of the worlds) a ratio-shifting rate in [0,1]
+			// fees: default rate and per-token overrides (each token with probability 1/2), so that the
+			// two directions of a pool and the two legs of an external→external swap are charged differently
 			if rng.Bool() {
 				w.policy()
+			}
+			{
+				sp := w.app.ClpKeeper.GetSwapFeeParams(w.ctx)
+				for _, tok := range w.denoms {
+					if rng.Bool() {
+						f := new(big.Int).Quo(rng.Rate01(), big.NewInt(int64(1+rng.Intn(20))))
+						found := false
+						for _, tp := range sp.TokenParams {
+							if tp.Asset == tok {
+								tp.SwapFeeRate = decRaw(f)
+								found = true
+							}
+						}
+						if !found {
+							sp.TokenParams = append(sp.TokenParams, &clptypes.SwapFeeTokenParams{Asset: tok, SwapFeeRate: decRaw(f)})
+						}
+						w.cfg("feetoken " + tok + " " + f.String())
+					}
+				}
+				w.app.ClpKeeper.SetSwapFeeParams(w.ctx, &sp)
 			}
 			if rng.Bool() {
 				r := rng.Rate01()
@@ -74,7 +95,17 @@ func init() {
 					continue
 				}
 				u := w.users[2+rng.Intn(3)] // users 2..4 hold no liquidity: a fresh provider every time
-				switch rng.Intn(3) {
+				switch rng.Intn(4) {
+				case 3: // external → external swap (two legs, both at the sold token's rate)
+					other := ammTokens[rng.Intn(len(ammTokens))]
+					if other == sym || w.pool(other) == nil {
+						continue
+					}
+					x := w.frac(p.ExternalAssetBalance.BigInt())
+					if x.Sign() == 0 {
+						x = big.NewInt(1)
+					}
+					w.opSwap(u, sym, other, x, big.NewInt(0))
 				case 0: // swap there and back
 					sent, recv := "rowan", sym
 					depth := p.NativeAssetBalance.BigInt()
@@ -139,7 +170,9 @@ func init() {
 					n2 := new(big.Int).Sub(w.bal(u, "rowan"), new(big.Int).Sub(bn, nAmt))
 					e2 := new(big.Int).Sub(w.bal(u, sym), new(big.Int).Sub(be, eAmt))
 					rr := w.app.ClpKeeper.GetPmtpRateParams(w.ctx).PmtpCurrentRunningRate.BigInt()
-					out.Emit(fmt.Sprintf("chk c04.addremove tag=add.remove %s %s %s %s %s %s %s", rr, s0.R, s0.A, nAmt, eAmt, n2, e2), "true", "chk.addremove", false)
+					fS := w.app.ClpKeeper.GetSwapFeeRate(w.ctx, *asset("rowan"), false).BigInt()
+					fB := w.app.ClpKeeper.GetSwapFeeRate(w.ctx, *asset(sym), false).BigInt()
+					out.Emit(fmt.Sprintf("chk c04.addremove tag=add.remove %s %s %s %s %s %s %s %s %s", rr, fS, fB, s0.R, s0.A, nAmt, eAmt, n2, e2), "true", "chk.addremove", false)
 				}
 			}
 		}
